@@ -10,12 +10,22 @@ from gffutils import inspect as gi
 from gv.model import dbutil, files, grammar as G
 
 ID = "C13"
-RULE = ("annotation (GFF3 n=1,3,4[,12]; GTF n=3) x input form (path, .gz, from_string, list, one-shot generator, DataIterator with the "
-        "transform given to the iterator or to create_db, FeatureDB) x checklines 0..n+2 x transform (none, modify, drop-odd); plus "
-        "inspect() over all 16 look_for subsets x limits x 3 forms. Non-trivial = checklines < n (peeking is partial) or a transform is "
-        "given or the form is not a plain path")
+RULE = (
+    "Part 'forms' (shards = annotation x input form): annotations GFF3 n=1,3,4, GTF n=3, a 4-line GFF3 text with inconsistent "
+    "multi-value spelling (thorough also GFF3 n=12, GTF n=5) x 12 forms (path, .gz, from_string, list of Features, instrumented "
+    "one-shot generator, DataIterator with the transform on the iterator or on create_db, FeatureDB, path / .gz / string with CRLF line "
+    "ends, a plain-text path whose name contains '.gz') x checklines 0..n+2 x transform (none, modify, drop-odd). Checked: iterated "
+    "sequence equals the expectation; transform called exactly once per feature in order; generator items pulled exactly once in order; "
+    "two live iterators of the same form over different annotations do not interfere; create_db from the form gives the same "
+    "features+relations and stored dialect as create_db from a plain path, whose lines equal the expectation. For the inconsistent text "
+    "only transform none is run and the iterated sequence is compared with the path form. Part 'inspect' (annotation x form {path, "
+    "list, generator, DataIterator with a counting transform}; not for the inconsistent text): all 16 look_for subsets x limit None, "
+    "1..n+1; inspect() equals a Counter reference and iterates no more features than it reports. Non-trivial = checklines < n or a "
+    "transform is given or the form is not a plain path (forms); look_for non-empty and limit None or <= n (inspect)."
+)
 ASSUMPTIONS = [
-    "annotations are consistent files whose lines all carry the same keys (so every form infers the same dialect)",
+    "annotations are consistent files whose lines all carry the same keys (so every form infers the same dialect); the one exception, "
+    "'gff3mixed' (repeated key vs comma list), is judged only differentially against the path form, never against the grammar's expectation",
     "for the FeatureDB form of the GTF annotation the source database is built with inference disabled (it then holds exactly the file's lines)",
     "a transform mutating list-of-Feature inputs in place is the caller's business: inputs are rebuilt for every run",
 ]
